@@ -76,6 +76,9 @@ impl Prop for C07 {
     fn id(&self) -> &'static str {
         "C07"
     }
+    fn fuzz_target(&self) -> Option<&'static str> {
+        Some("tape")
+    }
     fn rule(&self) -> String {
         "stateful, model-based: generated transition system (bit-vector states up to 70 bits and array states, with/without init, init over earlier states, constant states, states without next) plus a tape-decoded history of <= 40 operations init(Zero|Random(seed)) / set(input, value) / step / get(state|input|output|bad|constraint|sub-expression) / take_snapshot / restore_snapshot(k) run on patronus::sim::Interpreter and on a reference model built on the independent evaluator; after every operation all observable expressions must agree. init(Random) values are read back once for init-less symbols, init-ed states are checked against their init expressions, and a second interpreter with the same seed must agree. restore must reproduce the state values of the snapshot (inputs are re-synchronised by reading them back) and the continuation is compared step by step. Non-trivial: history with a step after a set-input and a restore followed by a step, on a system with >= 2 states where one next function reads another state; distinct by hash of the tape.".into()
     }
